@@ -395,6 +395,11 @@ func c19Client(rng *rand.Rand, id string, stats *c19Stats) string {
 					answer(x.StreamID)
 				}
 			}
+			if lr.Intn(10) == 0 {
+				// the header table size goes up and down while the callers' requests are being encoded
+				w(rt.SettingsFrame(wire.Setting{ID: 1, Val: uint32([]int{0, 64, 256, 4096}[lr.Intn(4)])}))
+				stats.settings.Add(1)
+			}
 			switch lr.Intn(40) {
 			case 0:
 				w(rt.SettingsFrame([]wire.Setting{{ID: 4, Val: uint32([]int{0, 100, 65535, 1 << 20}[lr.Intn(4)])}, {ID: 1, Val: uint32([]int{0, 4096}[lr.Intn(2)])}, {ID: 5, Val: uint32([]int{16384, 32768}[lr.Intn(2)])}, {ID: 3, Val: uint32(1 + lr.Intn(100))}}[lr.Intn(4)]))
@@ -512,6 +517,9 @@ func c19RoundTrip(rng *rand.Rand, id string, stats *c19Stats) string {
 						tags[key] = x.Value
 						smu.Unlock()
 					}
+				}
+				if roll(6) == 0 {
+					rc.P.Write(rt.SettingsFrame(wire.Setting{ID: 1, Val: uint32([]int{0, 64, 256, 4096}[roll(4)])}))
 				}
 			}
 		case wire.TData:
